@@ -1079,14 +1079,20 @@ pub fn suite_race(ctx: &mut Ctx, seed: u64, n: usize, opname: &str) {
         let ops_: Vec<Op> = if opname == "mkdir_all" {
             let base = crng.pick(&dirs).clone();
             let chain: Vec<&[u8]> = vec![b"n1", b"n2", b"n3", b"n4"];
+            // in half of the rounds one caller is bound to fail *after* it has created some of the shared directories
+            // (a component longer than NAME_MAX): whatever it does about its failure must not disturb the others
+            let doomed = if crng.chance(1, 2) { Some(crng.below(nthreads)) } else { None };
             (0..nthreads)
-                .map(|_| {
+                .map(|t| {
                     let depth = 1 + crng.below(4);
                     let mut p = base.clone();
                     for c in &chain[..depth] {
                         p = tree::join(&p, c);
                     }
-                    if crng.chance(1, 4) {
+                    if doomed == Some(t) {
+                        p = tree::join(&p, &vec![b'L'; 256]);
+                        p = tree::join(&p, b"x");
+                    } else if crng.chance(1, 4) {
                         p.push(b'/');
                     }
                     Op::MkdirAll { path: p, mode: 0o755 }
@@ -1154,7 +1160,13 @@ pub fn suite_race(ctx: &mut Ctx, seed: u64, n: usize, opname: &str) {
         for (k, (op, _, outcome, _, ident)) in results.iter().enumerate() {
             match outcome {
                 Outcome::Fd(_) | Outcome::Unit => {}
-                Outcome::Err(e) => bad.push(format!("thread {k} {} failed: {}", op.line(), ops::kind_str(e))),
+                Outcome::Err(e) => {
+                    // (a path with a component longer than NAME_MAX is meant to fail)
+                    let doomed = matches!(op, Op::MkdirAll { path, .. } if path.split(|c| *c == b'/').any(|c| c.len() > 255));
+                    if !doomed {
+                        bad.push(format!("thread {k} {} failed: {}", op.line(), ops::kind_str(e)))
+                    }
+                }
                 Outcome::Panic(_) => bad.push(format!("thread {k} panicked")),
                 Outcome::Bytes(_) => {}
             }
